@@ -40,7 +40,7 @@ def _run_one(target: str, timeout: int, per_path: int, env_extra: Dict[str, str]
     os.makedirs("/verif/.scratch", exist_ok=True)
     env["VERIF_XH_SIDE"] = side
     env.update(env_extra)
-    cmd = [PY, "-m", "crosshair", "check", "--report_all", "--per_condition_timeout", str(timeout), "--per_path_timeout", str(per_path),
+    cmd = [PY, "-m", "crosshair", "check", "--unblock", "EVERYTHING", "--report_all", "--per_condition_timeout", str(timeout), "--per_path_timeout", str(per_path),
            "--analysis_kind", "PEP316", target]
     t0 = time.time()
     try:
